@@ -6,6 +6,10 @@
 //! permutations, failing-then-valid; an A-B-A re-run of the previous case after every case), huge targets (16 384 .. 196 611
 //! elements, axes above 65 536) with a harness-native odometer reference that is compared with the model on every other case,
 //! every axis length 1..300, the same object on both sides, ranks 5..8, lists of up to 70 arrays.
+//! Part 3: giant targets (2^20 < count <= 2.2 million; `g` lines: the model answers the result shape, the values are compared in
+//! place with the harness-native reference — never formatted), odd-layout element types (12-, 3- and 32-byte tuples), constant and
+//! all-`==`-but-not-identical sources against EVERY small target (refused and accepted), the helpers' second public lift
+//! (`round`, op `h2r`) so that broadcast_h2 also gets giant cases.
 use arrharness::*;
 use std::cell::RefCell;
 use std::panic::{catch_unwind, AssertUnwindSafe};
@@ -20,6 +24,12 @@ trait Image {
     fn img(t: i64) -> Self::T;
     fn same(a: &Self::T, b: &Self::T) -> bool { a == b }
 }
+struct L12; struct L3; struct L32;
+/// odd layouts (FRAMEWORK part 3): 12-byte and 3-byte tuples (tiles of `64 / size_of::<T>()` elements are not powers of two) and a
+/// 32-byte tuple that is not `Copy` (paths chosen by `size_of::<T>() > 24`)
+impl Image for L12 { type T = T3; const NAME: &'static str = "Tuple3<i32,i32,i32> (12 bytes)"; fn img(t: i64) -> T3 { tag_t3(t) } }
+impl Image for L3 { type T = T3b; const NAME: &'static str = "Tuple3<u8,u8,u8> (3 bytes)"; fn img(t: i64) -> T3b { tag_t3b(t) } }
+impl Image for L32 { type T = TW; const NAME: &'static str = "Tuple2<String,i32> (32 bytes)"; fn img(t: i64) -> TW { tag_tw(t) } }
 struct I64; struct I64Big; struct U8; struct U8Hi; struct I8; struct Bool; struct U16; struct I32; struct Usize; struct F32; struct F64z; struct F64v; struct Str;
 impl Image for I64 { type T = i64; const NAME: &'static str = "i64"; fn img(t: i64) -> i64 { t } }
 /// integers beyond 2^53 (an f64 round trip loses the low bit)
@@ -178,6 +188,13 @@ fn robust(c: &Call, base: &Out<Ans<i64>>, size: usize) -> Option<String> {
         .or_else(|| if small { variant::<F32>(c, base, true, true) } else { None })
         .or_else(|| if small { variant::<Usize>(c, base, true, true) } else { None })
         .or_else(|| if small { variant::<Str>(c, base, true, true) } else { None })
+        // odd layouts: up to 600 elements all three on both receivers; up to 20 000 the 12- and 3-byte tuples on the plain receiver and
+        // the 32-byte one on the Result receiver; above that one of the three in turn
+        .or_else(|| if huge { if rot == 0 { variant::<L12>(c, base, true, false) } else { variant::<L3>(c, base, true, false) } } else { None })
+        .or_else(|| if huge && HUGE_ROT.load(Ordering::Relaxed) % 8 == 3 { variant::<L32>(c, base, true, false) } else { None })
+        .or_else(|| if huge { None } else { variant::<L12>(c, base, true, small) })
+        .or_else(|| if huge { None } else { variant::<L3>(c, base, true, small) })
+        .or_else(|| if huge { None } else { variant::<L32>(c, base, small, true) })
 }
 
 /// aliasing: when both operands of `broadcast` / `zip` are the same array, the call with the SAME OBJECT on both sides
@@ -361,6 +378,7 @@ fn gen_all(tier: &str, seed: u64, out: &mut dyn FnMut(String)) {
     }
     gen_robust(thorough, &mut rng, out);
     gen_part2(thorough, &mut rng, out);
+    gen_part3(thorough, seed, &mut rng, out);
 }
 
 /// `s` with the axes selected by `unit` set to length 1
@@ -763,6 +781,156 @@ fn gen_part2(thorough: bool, rng: &mut Rng, out: &mut dyn FnMut(String)) {
     }
 }
 
+// ================================================================ robustness streams, part 3
+
+/// every source of the target `b` given by a set of unit axes (bit k of the mask = axis k has length 1 in the source), and the
+/// same source with its leading unit axes dropped (the target then has ADDED leading axes)
+fn mask_sources(b: &[usize]) -> Vec<Vec<usize>> {
+    let r = b.len();
+    let mut v = vec![];
+    for m in 1..(1usize << r) {
+        let s = unitize(b, |k| (m >> k) & 1 == 1);
+        let lead = (0..r).take_while(|&k| (m >> k) & 1 == 1).count();
+        if lead > 0 { v.push(if lead == r { vec![1] } else { s[lead..].to_vec() }); }
+        v.push(s);
+    }
+    v.sort(); v.dedup(); v.retain(|s| s != b);
+    v
+}
+
+/// targets with 2^20 < count <= 2.2 million: the lib list plus ranks 1..4 with extents that are / are not multiples of 64, a
+/// stretched axis above a kept axis above a stretched axis, counts next to 2^20 and 2^21
+fn c03_giant_targets(thorough: bool) -> Vec<Vec<usize>> {
+    let mut v = vec![vec![1 << 20 | 5], vec![1031, 1033], vec![1025, 1024], vec![600, 2, 1000], vec![65, 129, 127], vec![2, 131_073, 4], vec![33, 32, 31, 33], vec![16, 64, 8, 129], vec![3, 400_001]];
+    if thorough {
+        v.extend(giant_shapes());
+        v.extend(vec![vec![1024, 1025], vec![2, 1000, 600], vec![1000, 600, 2], vec![128, 64, 129], vec![7, 3, 5, 9999], vec![64, 2, 64, 129], vec![(1 << 20) + 1], vec![2, 1 << 20], vec![(1 << 20) + 64, 2]]);
+    }
+    v.sort(); v.dedup();
+    v
+}
+
+/// one giant (source, target) pair through the operation number `op`: 0 broadcast_to, 1 zip (argument stretched), 2 broadcast with
+/// the complementary operand (BOTH stretched when the source has a non-unit axis), 3 broadcast_arrays with the complement,
+/// 4 broadcast against the full target shape
+fn emit_giant(s: &[usize], b: &[usize], op: usize, out: &mut dyn FnMut(String)) {
+    // the complement of `s` in `b`: unit where `s` has the target length, the target length where `s` is a unit / missing axis
+    let off = b.len() - s.len();
+    let comp: Vec<usize> = (0..b.len()).map(|k| if k >= off && s[k - off] == b[k] && b[k] != 1 { 1 } else { b[k] }).collect();
+    match op {
+        0 => out(format!("g broadcast_to {} {}", tag(s), show_list(b))),
+        1 => out(format!("g zip {} {}", tag(b), tag_off(s, 10_000_000))),
+        2 => out(format!("g broadcast {} {}", tag(s), tag_off(&comp, 10_000_000))),
+        3 => out(format!("g broadcast_arrays {};{}", tag_off(&comp, 10_000_000), tag(s))),
+        _ => out(format!("g broadcast {} {}", tag(b), tag_off(s, 10_000_000))),
+    }
+}
+
+/// FRAMEWORK.md robustness streams, part 3: giant sizes (11), constant / all-equal sources (13), the second lift of broadcast_h2;
+/// the odd-layout element types (12) are applied by `exec` to every case
+fn gen_part3(thorough: bool, seed: u64, rng: &mut Rng, out: &mut dyn FnMut(String)) {
+    // ---- (11) giant targets.  Quick tier: a fixed core that has, for ranks 1..4, a stretched first / middle / last axis, added
+    // leading axes, a stretched axis above a kept axis above a stretched axis (rank 3 and 4, both parities), extents that are and are
+    // not multiples of 64, every operation; plus seeded extras from the full product.  Thorough: the full product.
+    let targets = c03_giant_targets(thorough);
+    if thorough {
+        for (j, b) in targets.iter().enumerate() {
+            for (k, s) in mask_sources(b).iter().enumerate() {
+                emit_giant(s, b, 0, &mut |l| out(l.replacen("g ", "g2 ", 1)));
+                if (j + k + seed as usize) % 3 == 0 { emit_giant(s, b, 1 + (j / 3 + k / 3 + seed as usize) % 4, &mut |l| out(l.replacen("g ", "g2 ", 1))); }
+            }
+            out(format!("g2 broadcast_to {} {}", tag(b), show_list(&[vec![1], b.clone()].concat())));
+            let mut bad = b.clone(); let l = bad.len() - 1; bad[l] += 1;
+            out(format!("g2 broadcast_to {} {}", tag(b), show_list(&bad)));
+        }
+        out(format!("g2 zip {} {}", tag(&[1031, 1033]), tag_off(&[1031, 1033], 10_000_000)));
+        out(format!("g2 broadcast {} {}", tag(&[600, 2, 1000]), tag_off(&[600, 2, 1000], 10_000_000)));
+    } else {
+        let core: Vec<(Vec<usize>, Vec<usize>, usize)> = vec![
+            (vec![1], vec![1 << 20 | 5], 0),
+            (vec![1031, 1], vec![1031, 1033], 0), (vec![1033], vec![1031, 1033], 1), (vec![1, 1024], vec![1025, 1024], 0),
+            (vec![3, 1], vec![3, 400_001], 2),
+            (vec![1, 2, 1], vec![600, 2, 1000], 0), (vec![600, 1, 1000], vec![600, 2, 1000], 3),
+            (vec![2, 1, 4], vec![2, 131_073, 4], 0), (vec![131_073, 1], vec![2, 131_073, 4], 1),
+            (vec![1, 129, 1], vec![65, 129, 127], 2), (vec![129, 127], vec![65, 129, 127], 0), (vec![65, 129, 1], vec![65, 129, 127], 0),
+            (vec![33, 1, 31, 1], vec![33, 32, 31, 33], 0), (vec![1, 32, 1, 33], vec![33, 32, 31, 33], 0), (vec![32, 1, 33], vec![33, 32, 31, 33], 1),
+            (vec![16, 1, 8, 1], vec![16, 64, 8, 129], 2), (vec![1, 64, 1, 1], vec![16, 64, 8, 129], 0),
+        ];
+        for (s, b, op) in &core { emit_giant(s, b, *op, out); }
+        // the 10^6 and 2^20 boundaries themselves
+        out("g broadcast_to i1,2,1 500,2,1000".to_string());
+        out("g broadcast_to i4,1,2,1 4,128,2,1024".to_string());
+        // the equal-count arm and a refused target at giant size
+        out("g broadcast_to i1031,1033 1,1031,1033".to_string());
+        out("g broadcast_to i1031,1033 1031,1034".to_string());
+        for _ in 0..2 {
+            let b = rng.pick(&targets).clone();
+            let ss = mask_sources(&b);
+            let s = rng.pick(&ss).clone();
+            emit_giant(&s, &b, rng.below(5), out);
+        }
+    }
+    // broadcast_h2 at giant size, through its numeric lift `round` (op h2r)
+    out("g h2r i1,2,1 i600,1,1000+1000".to_string());
+    if thorough {
+        for l in ["g h2r i1031,1 i1033+1000", "g h2r i1025,1024 i1+1000", "g h2r i2,1,4 i131073,1+1000", "g h2r i33,1,31,1 i32,1,33+1000", "g h2r i129,127 i65,1,1+1000", "g h2r i1 i1048581+1000"] { out(l.to_string()); }
+    }
+
+    // ---- (13) values related in a way random data never is: CONSTANT sources, sources whose elements are all `==` but not identical
+    // under the f64 value-class image (tags 0 / 1 / 8 / 9 = -0.0 / +0.0 / -0.0 / +0.0), and constant-but-for-one-element sources,
+    // against EVERY small target — the accepted ones and the refused ones (shrinking, clashing, lower rank)
+    let small = shapes(1, 3, 1, 3);
+    let mut targets = small.clone();
+    targets.extend(vec![vec![4, 2, 1], vec![1, 1, 1, 1], vec![2, 1, 1, 1], vec![2, 3, 3, 3], vec![1, 2, 1, 3], vec![4], vec![3, 4], vec![5, 1, 1]]);
+    let lit = |s: &[usize], e: &[i64]| format!("{}:{}", show_list(s), show_list(e));
+    let mut turn = seed as usize;
+    for s in &small {
+        let n = count(s);
+        if n < 2 { continue; }
+        let konst = vec![7i64; n];
+        let zeros: Vec<i64> = (0..n).map(|k| [0i64, 1, 8, 9][k % 4]).collect();
+        let mut near = konst.clone(); if turn % 2 == 0 { near[n - 1] = 8 } else { near[0] = 8 };
+        for t in &targets {
+            turn += 1;
+            for e in [&konst, &zeros, &near] { out(format!("broadcast_to {} {}", lit(s, e), show_list(t))); }
+            // the other entry points with one constant operand (one of them in turn, both operand positions)
+            let e = if turn % 3 == 0 { &zeros } else { &konst };
+            match turn % 6 {
+                0 => out(format!("zip {} {}", tag_off(t, 1000), lit(s, e))),
+                1 => out(format!("broadcast {} {}", lit(s, e), tag_off(t, 1000))),
+                2 => out(format!("broadcast {} {}", tag_off(t, 1000), lit(s, e))),
+                3 => out(format!("broadcast_arrays {};{}", lit(s, e), tag_off(t, 1000))),
+                4 => out(format!("broadcast_arrays {};{};{}", tag_off(t, 1000), lit(s, e), lit(&[1], &[7]))),
+                _ => out(format!("zip {} {}", lit(s, e), tag_off(t, 1000))),
+            }
+        }
+        // the helpers with a constant string / count / fill operand
+        for t in [vec![1], vec![3], vec![2, 1], vec![1, 3], s.clone()] {
+            out(format!("h2 {} {}", lit(s, &vec![5; n]), tag_off(&t, 1000)));
+            out(format!("h2 {} {}", tag(&t), lit(s, &vec![1003; n])));
+            out(format!("h3 {} {} {}", lit(s, &vec![5; n]), tag_off(&t, 1000), lit(s, &vec![2004; n])));
+        }
+    }
+    // constant sources beyond the small scope
+    for (s, ts) in [(vec![300], vec![vec![3, 300], vec![1], vec![300, 1], vec![2, 1], vec![1, 300], vec![299]]),
+                    (vec![70, 70], vec![vec![70, 1], vec![1, 70], vec![2, 70, 70], vec![1, 1], vec![70]]),
+                    (vec![4100], vec![vec![1], vec![2, 4100], vec![4100, 1], vec![1, 1]]),
+                    (vec![2, 1, 700], vec![vec![2, 3, 700], vec![2, 3, 1], vec![1, 1, 700], vec![2, 1, 1], vec![5, 2, 3, 700]])] {
+        let n = count(&s);
+        for t in &ts {
+            out(format!("broadcast_to {} {}", lit(&s, &vec![7; n]), show_list(t)));
+            out(format!("broadcast_to {} {}", lit(&s, &(0..n).map(|k| (k % 2) as i64).collect::<Vec<_>>()), show_list(t)));
+            if o_shape2(&s, t).map_or(true, |fs| count(&fs) <= 20_000) { out(format!("broadcast {} {}", lit(&s, &vec![7; n]), tag_off(t, 100000))); }
+        }
+    }
+    // ---- the second public lift of broadcast_h2 (`round(decimals)`, op h2r) on the small scope, so that the giant h2r cases rest on a
+    // lift that the model has answered in the same run
+    for s in &small { for t in &small { out(format!("h2r {} {}", tag(s), tag_off(t, 1000))); } }
+    for (a, b) in [(vec![70, 1], vec![70]), (vec![41, 41], vec![3, 1, 1]), (vec![5000], vec![1]), (vec![1], vec![1, 4100]), (vec![8, 1, 9], vec![7, 1]), (vec![0], vec![1]), (vec![2], vec![3]), (vec![], vec![2, 3])] {
+        out(format!("h2r {} {}", tag(&a), tag_off(&b, 1000)));
+    }
+}
+
 // ================================================================ harness-native reference (huge cases)
 // A direct coordinate formula in plain Rust: an odometer over the target coordinates, the source position rebuilt from the
 // coordinates (added leading axes dropped, 0 on unit axes).  It is compared with the model's full answer on EVERY broadcast /
@@ -774,6 +942,8 @@ static ORACLE_SILENT: AtomicUsize = AtomicUsize::new(0);
 static ORACLE_ONLY: AtomicUsize = AtomicUsize::new(0);
 static ABA_RERUNS: AtomicUsize = AtomicUsize::new(0);
 static HUGE_ROT: AtomicUsize = AtomicUsize::new(0);
+static GIANT: AtomicUsize = AtomicUsize::new(0);
+static GIANT_ROT: AtomicUsize = AtomicUsize::new(0);
 
 fn has_zero(s: &[usize]) -> bool { s.iter().any(|&d| d == 0) }
 fn count(s: &[usize]) -> usize { s.iter().product() }
@@ -894,11 +1064,13 @@ fn exec_single(op: &str, args: &[&str], expected: &str) -> Option<(Verdict, Stri
         // tag 1000+j of the count operand is the count j+1 — the result text gives back both stretched operands
         "h2" => {
             let obs = plain_text(op, args)?;
+            if let Some(v) = oracle_h_check(&[parse_arr_raw(args[0]), parse_arr_raw(args[1])], expected, &obs) { return Some((v, obs)); }
             Some((compare_default(obs.clone(), expected), obs))
         }
         // broadcast_h3 observed through `ljust`: width tag 1000+j is the width W+1+j, fill tag 2000+k is the character U+0100+k
         "h3" => {
             let obs = plain_text(op, args)?;
+            if let Some(v) = oracle_h_check(&[parse_arr_raw(args[0]), parse_arr_raw(args[1]), parse_arr_raw(args[2])], expected, &obs) { return Some((v, obs)); }
             Some((compare_default(obs.clone(), expected), obs))
         }
         _ => None,
@@ -949,6 +1121,140 @@ fn exec_n(args: &[&str], expected: &str) -> Option<Verdict> {
     Some(Verdict::Match(format!("ok {expected} (values as the harness-native reference)")))
 }
 
+// ---- broadcast_h2 through its SECOND public lift: `Array<f64>::round(&Array<isize>)` = broadcast_h2, then position by position
+// `(x * 10^d).round() / 10^d`.  Tag v of the first operand is the number 1000 v + 555, tag w of the second the decimals -(w mod 4):
+// the result at a position gives back v and w mod 4.  The scalar function is evaluated natively and compared bit-wise.
+fn h2r_value(t: i64) -> f64 { (t * 1000 + 555) as f64 }
+fn h2r_dec(t: i64) -> isize { -(t.rem_euclid(4) as isize) }
+fn h2r_f(v: f64, d: isize) -> f64 { let m = 10_f64.powi(d as i32); (v * m).round() / m }
+fn h2r_call(a: &Raw, b: &Raw) -> Out<Piece<f64>> {
+    let xa: Array<f64> = Array::new(a.1.iter().map(|&t| h2r_value(t)).collect(), a.0.clone()).expect("harness: h2r operand");
+    let db: Array<isize> = Array::new(b.1.iter().map(|&t| h2r_dec(t)).collect(), b.0.clone()).expect("harness: h2r operand");
+    run(|| xa.round(&db).map(|r| piece(&r)))
+}
+/// where does the `round` result differ from the lift of the two stretched tag arrays?
+fn h2r_differs(r: &Piece<f64>, fs: &[usize], ta: &[i64], tb: &[i64]) -> Option<String> {
+    if !r.consistent || r.shape != fs || r.elems.len() != ta.len() { return Some(format!("shape {} ({} elements) instead of {}", show_list(&r.shape), r.elems.len(), show_list(fs))); }
+    (0..ta.len()).find(|&p| r.elems[p].to_bits() != h2r_f(h2r_value(ta[p]), h2r_dec(tb[p])).to_bits())
+        .map(|p| format!("{:?} at flat position {p}, where the stretched operands have the tags {} and {} (expected {:?})", r.elems[p], ta[p], tb[p], h2r_f(h2r_value(ta[p]), h2r_dec(tb[p]))))
+}
+/// the reference answer of h2 / h3 in the protocol text of the model (`None`: zero-length axes — no opinion)
+fn oracle_h(ops: &[Raw]) -> Option<String> {
+    if ops.iter().any(|a| has_zero(&a.0)) { return None; }
+    let mut fs: Vec<usize> = vec![];
+    for a in ops { match o_shape2(&fs, &a.0) { Some(x) => fs = x, None => return Some("err BroadcastShapeMismatch".to_string()) } }
+    Some(format!("ok {}", ops.iter().map(|a| show_tags(&fs, &o_stretch(&a.0, &a.1, &fs))).collect::<Vec<_>>().join(";")))
+}
+/// compare the reference of h2 / h3 / h2r with the model's answer; `Some(verdict)` = they disagree (harness defect)
+fn oracle_h_check(ops: &[Raw], expected: &str, observed: &str) -> Option<Verdict> {
+    match oracle_h(ops) {
+        None => { ORACLE_SILENT.fetch_add(1, Ordering::Relaxed); None }
+        Some(ot) => {
+            ORACLE_CHECKED.fetch_add(1, Ordering::Relaxed);
+            if ot != expected && !(class_of(&ot) == "err" && class_of(expected) == "err") {
+                return Some(Verdict::Mismatch { observed: observed.to_string(), detail: format!("ORACLE-VS-MODEL the harness-native reference gives `{}`, the model `{}` (harness defect: the reference is not usable)", truncate(&ot, 300), truncate(expected, 300)) });
+            }
+            None
+        }
+    }
+}
+/// `h2r a b`: the model answers the two stretched tag arrays (the same `broadcastH2` as for h2)
+fn exec_h2r(args: &[&str], expected: &str) -> Option<Verdict> {
+    if args.len() != 2 { return None; }
+    let (a, b) = (parse_arr_raw(args[0]), parse_arr_raw(args[1]));
+    let r = h2r_call(&a, &b);
+    let obs = match &r { Out::Panic => "panic".to_string(), Out::Err(e) => format!("err {e}"), Out::Ok(p) => format!("ok {}:{}", show_list(&p.shape), p.elems.iter().take(40).map(|x| format!("{x:?}")).collect::<Vec<_>>().join(",")) };
+    if let Some(v) = oracle_h_check(&[a, b], expected, &obs) { return Some(v); }
+    match (&r, expected.strip_prefix("ok ")) {
+        (Out::Ok(p), Some(body)) => {
+            let (ma, mb) = body.split_once(';')?;
+            let (ma, mb) = (parse_arr_raw(ma), parse_arr_raw(mb));
+            if ma.0 != mb.0 { return None; }
+            Some(match h2r_differs(p, &ma.0, &ma.1, &mb.1) {
+                Some(d) => Verdict::Mismatch { observed: obs, detail: format!("`round` (a pure lift over broadcast_h2) gives {d}; model: `{}`", truncate(expected, 300)) },
+                None => Verdict::Match(format!("ok {}", body)),
+            })
+        }
+        _ => Some(compare_default(obs, expected)),
+    }
+}
+/// `g h2r a b`: broadcast_h2 at giant size; the model answers the result shape, the reference the two stretched tag arrays
+fn exec_g_h2r(args: &[&str], expected: &str) -> Option<Verdict> {
+    if args.len() != 2 { return None; }
+    let (a, b) = (parse_arr_raw(args[0]), parse_arr_raw(args[1]));
+    if has_zero(&a.0) || has_zero(&b.0) { return None; }
+    GIANT.fetch_add(1, Ordering::Relaxed);
+    let fs = o_shape2(&a.0, &b.0);
+    let model_shape = expected.strip_prefix("shape ").map(parse_usize_list);
+    if class_of(expected) == "other" && model_shape.is_none() { return None; }
+    if fs != model_shape {
+        return Some(Verdict::Mismatch { observed: format!("reference shape {:?}", fs), detail: format!("ORACLE-VS-MODEL the harness-native reference and the model (`{expected}`) disagree about the result shape (harness defect)") });
+    }
+    let r = h2r_call(&a, &b);
+    match (&r, &fs) {
+        (Out::Ok(p), Some(fs)) => {
+            let (ta, tb) = (o_stretch(&a.0, &a.1, fs), o_stretch(&b.0, &b.1, fs));
+            Some(match h2r_differs(p, fs, &ta, &tb) {
+                Some(d) => Verdict::Mismatch { observed: format!("ok shape {} ({} elements)", show_list(&p.shape), p.elems.len()), detail: format!("`round` (a pure lift over broadcast_h2) gives {d} (reference: direct coordinate formula of the harness, validated against the model's broadcastH2 on the smaller h2 / h3 / h2r cases of this run)") },
+                None => Verdict::Match(format!("ok {expected} (values as the harness-native reference)")),
+            })
+        }
+        (Out::Err(_), None) => Some(Verdict::Match("err BroadcastShapeMismatch".to_string())),
+        (Out::Ok(p), None) => Some(Verdict::Mismatch { observed: format!("ok shape {}", show_list(&p.shape)), detail: format!("model says `{expected}`") }),
+        (Out::Err(e), Some(_)) => Some(Verdict::Mismatch { observed: format!("err {e}"), detail: format!("model says `{expected}`") }),
+        (Out::Panic, _) => Some(Verdict::Mismatch { observed: "panic".to_string(), detail: format!("model says `{expected}`") }),
+    }
+}
+
+/// short text of a (possibly giant) answer: the shape, the element count and the first few elements — a giant array is never formatted
+fn brief(o: &Out<Ans<i64>>) -> String {
+    fn head<E>(p: &Piece<E>, f: impl Fn(&E) -> String) -> String {
+        format!("{}shape {} ({} elements, first: {}{})", if p.consistent { "" } else { "<inconsistent array> " }, show_list(&p.shape), p.elems.len(),
+            p.elems.iter().take(6).map(|e| f(e)).collect::<Vec<_>>().join(","), if p.elems.len() > 6 { ",…" } else { "" })
+    }
+    match o {
+        Out::Panic => "panic".to_string(),
+        Out::Err(e) => format!("err {e}"),
+        Out::Ok(Ans::Arr(p)) => format!("ok {}", head(p, |e| e.to_string())),
+        Out::Ok(Ans::Pairs(p)) => format!("ok {}", head(p, |e| format!("{}/{}", e.0, e.1))),
+        Out::Ok(Ans::List(v)) => format!("ok {}", v.iter().map(|p| head(p, |e| e.to_string())).collect::<Vec<_>>().join("; ")),
+    }
+}
+
+/// `g <call>`: a GIANT case (result of more than 2^20 elements; operands spelled as tag arrays `i<shape>[+offset]`, built by the
+/// harness, never written out).  The model answers the result shape; the values are compared IN PLACE with the harness-native
+/// reference (first differing position only).  After the plain `Array<i64>` call ONE further stream in turn (`g`: on every second
+/// case, `g2`: on every case): the same call again, the Result receiver, the u8 / 12-byte / 3-byte / f64 value-class image.
+fn exec_g(args: &[&str], expected: &str, every: bool) -> Option<Verdict> {
+    if args.first() == Some(&"h2r") { return exec_g_h2r(&args[1..], expected); }
+    let c = parse_call(args.first()?, &args[1..])?;
+    let o = oracle(&c)?;          // `g` lines are only generated where the reference has an opinion
+    GIANT.fetch_add(1, Ordering::Relaxed);
+    let o_shape = match &o { Out::Ok(Ans::Arr(p)) => Some(p.shape.clone()), Out::Ok(Ans::Pairs(p)) => Some(p.shape.clone()), Out::Ok(Ans::List(v)) => Some(v[0].shape.clone()), _ => None };
+    let model_shape = expected.strip_prefix("shape ").map(parse_usize_list);
+    if class_of(expected) == "other" && model_shape.is_none() { return None; }
+    if o_shape != model_shape {
+        return Some(Verdict::Mismatch { observed: format!("reference shape {:?}", o_shape), detail: format!("ORACLE-VS-MODEL the harness-native reference and the model (`{expected}`) disagree about the result shape (harness defect)") });
+    }
+    let base = call::<I64>(&c, false)?;
+    if let Some(d) = differs(&base, &o) {
+        return Some(Verdict::Mismatch { observed: brief(&base), detail: format!("the crate gives {d} (reference: direct coordinate formula of the harness, validated against the full model answer on the smaller cases of this run; model shape `{expected}`)") });
+    }
+    drop(o);
+    let rot = GIANT_ROT.fetch_add(1, Ordering::Relaxed);
+    // `g`: on every second giant case; `g2` (thorough tier): on every one
+    let d = if !every && rot % 2 == 1 { None } else { match (if every { rot } else { rot / 2 }) % 6 {
+        0 => variant::<I64>(&c, &base, true, false),
+        1 => variant::<I64>(&c, &base, false, true),
+        2 => variant::<U8>(&c, &base, true, false),
+        3 => variant::<L12>(&c, &base, true, false),
+        4 => variant::<L3>(&c, &base, true, false),
+        _ => variant::<F64v>(&c, &base, true, false),
+    } };
+    if let Some(d) = d { return Some(Verdict::Mismatch { observed: format!("{d}; plain Array<i64> call: {}", brief(&base)), detail: "divergence between receivers / element types / repeated calls on a giant case".into() }); }
+    Some(Verdict::Match(format!("ok {expected} (values as the harness-native reference)")))
+}
+
 /// `seq call / call / …`: the calls are executed one after the other on this thread, each compared with the model
 fn exec_seq(args: &[&str], expected: &str) -> Option<Verdict> {
     let parts: Vec<&[&str]> = args.split(|&a| a == "/").collect();
@@ -978,9 +1284,12 @@ fn exec(op: &str, args: &[&str], expected: &str) -> Option<Verdict> {
     match op {
         "seq" => { PREV.with(|p| *p.borrow_mut() = None); return exec_seq(args, expected); }
         "n" => { PREV.with(|p| *p.borrow_mut() = None); return exec_n(args, expected); }
+        "g" => { PREV.with(|p| *p.borrow_mut() = None); return exec_g(args, expected, false); }
+        "g2" => { PREV.with(|p| *p.borrow_mut() = None); return exec_g(args, expected, true); }
+        "h2r" => { PREV.with(|p| *p.borrow_mut() = None); return exec_h2r(args, expected); }
         "oracle_report" => {
-            let (n, silent, only, aba) = (ORACLE_CHECKED.load(Ordering::Relaxed), ORACLE_SILENT.load(Ordering::Relaxed), ORACLE_ONLY.load(Ordering::Relaxed), ABA_RERUNS.load(Ordering::Relaxed));
-            let text = format!("ok report: so far the harness-native reference agreed with the full model answer on {n} cases (no opinion on {silent}), {only} huge cases compared with the reference only, {aba} A-B-A re-runs");
+            let (n, silent, only, aba, giant) = (ORACLE_CHECKED.load(Ordering::Relaxed), ORACLE_SILENT.load(Ordering::Relaxed), ORACLE_ONLY.load(Ordering::Relaxed), ABA_RERUNS.load(Ordering::Relaxed), GIANT.load(Ordering::Relaxed));
+            let text = format!("ok report: so far the harness-native reference agreed with the full model answer on {n} cases (no opinion on {silent}), {only} huge and {giant} giant (> 10^6 elements) cases compared with the reference only, {aba} A-B-A re-runs");
             // the last line of a run: the chain model -> reference -> crate must really have been exercised
             if args.first() == Some(&"final") && n < 1000 { return Some(Verdict::Mismatch { observed: text, detail: "the reference was compared with the model on fewer than 1000 cases".into() }); }
             return Some(Verdict::Match(text));
@@ -1011,7 +1320,7 @@ fn exec(op: &str, args: &[&str], expected: &str) -> Option<Verdict> {
 fn nontrivial(op: &str, args: &[&str]) -> bool {
     match op {
         "seq" => return args.split(|&a| a == "/").any(|p| !p.is_empty() && nontrivial(p[0], &p[1..])),
-        "n" => return !args.is_empty() && nontrivial(args[0], &args[1..]),
+        "n" | "g" | "g2" => return !args.is_empty() && nontrivial(args[0], &args[1..]),
         "oracle_report" => return false,
         _ => {}
     }
